@@ -99,8 +99,8 @@ def check(model: Model, run: Run) -> None:
     # ---- (2) escape-set completeness -------------------------------------------------------
     # bytes the parser reacts to while scanning a value: literals compared with chr(view[i]) / split bytes / the un-escaper's lead byte
     parser_special: Set[int] = set()
-    for fq in ("_unpack_simple_filter", "_unpack_filter_substrings_value", "_unpack_filter", "_unpack_complex_filter"):
-        fi = model.func(f"{FILTER}.{fq}")
+    from ..anchors import filt as filter_anchors
+    for fi in filter_anchors(model).parser_functions:
         for n in ast.walk(fi.node):
             if isinstance(n, ast.Constant) and isinstance(n.value, (str, bytes)) and len(n.value) == 1:
                 c = n.value if isinstance(n.value, str) else n.value.decode("latin-1")
@@ -140,7 +140,7 @@ def check(model: Model, run: Run) -> None:
         digits = "0-9a-f" if fmt[1] == "02x" else "0-9A-F"
         W = Lang(build(f"\\\\[{digits}]{{2}}".encode(), 0, "fullmatch"))
         # what the un-escaper accepts: its escape pattern must match the three bytes and the hex check must accept the two digits
-        hexs = [s for s in find_sites(model) if s.module == FILTER and s.name == "_HEX_PATTERN"]
+        hexs = [s for s in find_sites(model) if s.module == FILTER and s.api in ("match", "fullmatch") and s.func.startswith(unesc[0].func) if len(unesc) == 1]
         if len(unesc) != 1:
             raise AnalysisError("un-escaper substitution not found")
         R1 = Lang(build(unesc[0].pattern, unesc[0].flags, "fullmatch"))
@@ -183,7 +183,7 @@ def check(model: Model, run: Run) -> None:
             ok2 = w2 is None
         run.ob("J3-escapes-accepted-by-unescaper", ok1 and ok2, {"escape_not_matched": w, "digits_not_accepted": w2})
         if not (ok1 and ok2):
-            run.fail(Finding("J3-escapes-accepted-by-unescaper", f"{FILTER}._unpack_filter_value", f"w={w} w2={w2}", "an escape the serialiser writes is not recognised by the un-escaper's patterns", model.loc(FILTER, unesc[0].node)))
+            run.fail(Finding("J3-escapes-accepted-by-unescaper", unesc[0].func, f"w={w} w2={w2}", "an escape the serialiser writes is not recognised by the un-escaper's patterns", model.loc(FILTER, unesc[0].node)))
         # the hex check is case-normalised before decoding (b16decode only takes upper case unless casefold)
         ufi = model.functions[hx.func] if hx is not None and hx.func in model.functions else None
         if ufi is not None:
